@@ -2,7 +2,7 @@
 import mir
 import proto
 from framework import fn_key
-from mir import op_place, pl_local
+from mir import op_place, pl_local, pl_str
 from util import derives_field, calls_on_field
 
 LEVEL = "other"
@@ -48,6 +48,7 @@ def run(ctx):
     ctx.undecided = "correctness of topo_sort, of the window re-sort, and that a merge is refused only when necessary"
     c = mir.load_crate("dfir_lang")
     uf_rule(ctx, c)
+    pairing_rule(ctx, c)
     tm = c.bodies.get(MOD + "{impl#0}::try_merge")
     new = c.bodies.get(MOD + "{impl#0}::new")
     R_G = ctx.rule("C17.guard", "UnionFind::union in try_merge is dominated by the not-enemy edge of the enemies lookup and by the exhaustion (pop -> None) of the cycle search", floor=1)
@@ -246,3 +247,108 @@ def uf_rule(ctx, c):
                               "only it is moved and the rest of its set is left behind (connectivity answers become wrong)", b.loc(bb))
             if v_ok is False:
                 ctx.violation(R, key + "|links-to-non-representative", "union() stores a link target that is not the result of find()", b.loc(bb))
+
+
+def _key_root(b, op, depth=0):
+    """canonical name of the key a lookup uses: follows copies back to the defining local / tuple field"""
+    p = op_place(op)
+    if p is None or depth > 8:
+        return None
+    if not isinstance(p, int):
+        return pl_str(p)
+    defs = b.defs_of(p)
+    if len(defs) == 1 and defs[0][1] != "term" and defs[0][2]["k"] == "use":
+        o = defs[0][2]["ops"][0]
+        pp = op_place(o)
+        if pp is not None:
+            return _key_root(b, o, depth + 1) if isinstance(pp, int) else pl_str(pp)
+    return "_%d" % p
+
+
+def _lookup_of(b, op, depth=0):
+    """(self field, key root) when the operand is a value loaded from `self.<field>[key]`"""
+    p = op_place(op)
+    if p is None or depth > 8:
+        return None
+    l = pl_local(p)
+    defs = b.defs_of(l)
+    if len(defs) != 1:
+        return None
+    bb, idx, rv = defs[0]
+    if idx == "term":
+        f = rv.get("f") or {}
+        if f.get("name") == "index" and len(rv.get("a", [])) == 2:
+            r = op_place(rv["a"][0])
+            rdefs = b.defs_of(pl_local(r)) if r is not None else []
+            for _bb, _i, rrv in rdefs:
+                if _i != "term" and rrv["k"] in ("ref", "refmut") and pl_local(rrv["p"]) == 1:
+                    flds = mir.pl_fields(rrv["p"])
+                    if flds:
+                        return (flds[0], _key_root(b, rv["a"][1]))
+        return None
+    if rv["k"] == "use":
+        return _lookup_of(b, rv["ops"][0], depth + 1)
+    if rv["k"] == "agg":
+        return None
+    return None
+
+
+def _lookup_of_place(b, op, depth=0):
+    """like _lookup_of, but also sees through `(a, b)` tuples that are immediately destructured (`let (x_idx, x_len) = (..[k], ..[k])`)"""
+    r = _lookup_of(b, op, depth)
+    if r is not None:
+        return r
+    p = op_place(op)
+    if p is None or depth > 8:
+        return None
+    l = pl_local(p)
+    defs = b.defs_of(l)
+    if len(defs) != 1 or defs[0][1] == "term":
+        return None
+    rv = defs[0][2]
+    if rv["k"] == "use":
+        src = op_place(rv["ops"][0])
+        if src is not None and not isinstance(src, int):
+            # a tuple field `_45.1`: find the aggregate that defines _45 and take its matching operand
+            base = pl_local(src)
+            projs = [x for x in src[1:] if isinstance(x, str) and x.startswith(".")]
+            if len(projs) == 1:
+                try:
+                    fi = int(projs[0][1:].split(":")[0])
+                except ValueError:
+                    return None
+                for _bb, _i, arv in b.defs_of(base):
+                    if _i != "term" and arv["k"] == "agg" and fi < len(arv["ops"]):
+                        return _lookup_of_place(b, arv["ops"][fi], depth + 1)
+        elif src is not None:
+            return _lookup_of_place(b, rv["ops"][0], depth + 1)
+    return None
+
+
+def pairing_rule(ctx, c):
+    """SubgraphMerge keeps two per-subgraph maps (`sg_idx`: where the subgraph's nodes start in the toposort vector, `sg_len`: how many there are). A window
+    `idx .. idx + len` only denotes a subgraph's nodes when both numbers are looked up with the same key; after `(u, v)` are re-ordered a length read with the
+    old name belongs to the other subgraph."""
+    R = ctx.rule("C17.pairing", "in SubgraphMerge, an offset and a length that are added together were looked up in self's per-subgraph maps with the same key", floor=3)
+    n = 0
+    for d, b in sorted(c.bodies.items()):
+        if "graph_algorithms" not in d or "SubgraphMerge" not in fn_key(c, b) and "{impl#0}" not in d:
+            continue
+        if c.is_test_path(d):
+            continue
+        for bb in range(b.n):
+            if b.is_cleanup(bb):
+                continue
+            for st in b.stmts(bb):
+                if "lhs" not in st or st["rv"]["k"] != "bin" or not st["rv"]["op"].startswith("Add"):
+                    continue
+                a, bop = st["rv"]["ops"]
+                la, lb = _lookup_of_place(b, a), _lookup_of_place(b, bop)
+                if la is None or lb is None or la[0] == lb[0]:
+                    continue
+                n += 1
+                key = "dfir_lang|%s|%s+%s#%d" % (fn_key(c, b), la[0], lb[0], n)
+                ctx.inst(R, key, sample={"line": st.get("ln"), "left": la, "right": lb})
+                if la[1] != lb[1]:
+                    ctx.violation(R, "dfir_lang|%s|%s[%s]+%s[%s]" % (fn_key(c, b), la[0], "k1", lb[0], "k2"), "`%s[..] + %s[..]` combines values looked up with different keys (%s vs %s): the window "
+                                  "no longer covers the nodes of one subgraph" % (la[0], lb[0], la[1], lb[1]), "%s:%s" % (b.file, st.get("ln")))
